@@ -49,6 +49,7 @@ def check(run):
     _edge_extremes(run, P)
     _box_growth(run, P)
     _extreme(run, P)
+    _closing_edge_swap(run, P)
 
 
 def _insert_events(stmt):
@@ -456,3 +457,41 @@ def _box_growth(run, P):
         run.violation("F-PATH/box-growth", c, where(f), "; ".join(probs))
     else:
         run.holds("F-PATH/box-growth", c, where(f), f"all {n} stores into the latitude interval can only widen it")
+
+
+def _closing_edge_swap(run, P):
+    """The per-face edge table handed to the bounds computation is made by rolling the node row; for a face with fewer corners than the row width this leaves the
+    face's FIRST node in the very last slot.  _swap_first_fill_value_with_last repairs that by exchanging the last entry with the FIRST fill value of the sub-array
+    (the slot right behind the last real corner).  Taking any other fill position (the last one, say) coincides only for faces one corner short of the width; for shorter
+    faces the closing edge and the last corner vanish from the table, and the bounds no longer enclose the face."""
+    from ..astutil import LocalDefs
+    f = P.try_func("uxarray/grid/utils.py:_swap_first_fill_value_with_last")
+    c = "uxarray/grid/utils.py:_swap_first_fill_value_with_last:first-fill-position"
+    if f is None:
+        run.incomplete("F-PATH/closing-edge", c, "uxarray/grid/utils.py", "helper not found")
+        return
+    defs = LocalDefs(f.node)
+    first, other, unknown = [], [], []
+    for n in ast.walk(f.node):
+        if isinstance(n, ast.Call) and (dotted(n.func) or [""])[-1] == "argmax" and n.args:
+            nodes, _ = defs.closure(n.args[0])
+            if any(isinstance(x, ast.Compare) and any("INT_FILL_VALUE" in norm(y) for y in [x.left] + x.comparators) for e in nodes for x in ast.walk(e)):
+                rev = any(isinstance(x, ast.Subscript) and "::-1" in norm(x.slice).replace(" ", "") for e in nodes for x in ast.walk(e)) or any(isinstance(x, ast.Call) and (dotted(x.func) or [""])[-1] in ("flip", "fliplr") for e in nodes for x in ast.walk(e))
+                (other if rev else first).append(n)
+        if isinstance(n, ast.Subscript) and isinstance(n.ctx, ast.Load) and isinstance(n.slice, (ast.Constant, ast.UnaryOp)):
+            nodes, _ = defs.closure(n.value)
+            pos = any(isinstance(x, ast.Call) and (dotted(x.func) or [""])[-1] in ("flatnonzero", "nonzero", "where", "argwhere") for e in nodes for x in ast.walk(e)) and \
+                any(isinstance(x, ast.Compare) and any("INT_FILL_VALUE" in norm(y) for y in [x.left] + x.comparators) for e in nodes for x in ast.walk(e))
+            if pos and isinstance(n.value, ast.Name):
+                idx = norm(n.slice)
+                if idx == "0":
+                    first.append(n)
+                elif idx.startswith("-") or idx.isdigit():
+                    other.append(n)
+    if other:
+        run.violation("F-PATH/closing-edge", c, where(f, other[0]), f"{norm(other[0])[:60]} selects a fill position other than the FIRST one of the sub-array: for a face two or more corners short of the row width "
+                      "the wrapped-around first node is moved to the wrong slot, the closing edge and the last corner drop out of the edge table and the face's bounds miss them")
+    elif first:
+        run.holds("F-PATH/closing-edge", c, where(f, first[0]), "the swap position is the first fill value of each sub-array")
+    else:
+        run.incomplete("F-PATH/closing-edge", c, where(f), "how the swap position is found is not recognised")
